@@ -106,6 +106,32 @@ Proof.
     simpl. rewrite app_assoc. split; [exact Hinv2|eapply c10_frame_trans; eauto].
 Qed.
 
+(* a finish() from a Popper destructor that returns normally keeps the invariant *)
+Lemma c10_pop_finish_inv en name w w' data :
+  c10_sinv w name data -> c10_pop_finish en name w = ROk tt w' -> c10_sinv w' name data /\ c10_frame name w w'.
+Proof.
+  intros (f & Hat & Hop & Hlog) H. unfold c10_pop_finish, c10_fflush in H.
+  destruct (c10_stream_op en name w sio_fflush (fun ok => EvFlush name ok) true) as [ok w1|e w1|w1] eqn:Hs; simpl in H; try discriminate.
+  destruct (c10_stream_op_ok _ _ _ _ _ _ _ _ _ Hat Hs) as (f' & Hc & Hat' & Hfr).
+  assert (Hw : w' = w1).
+  { destruct (ck_finish (en_ck en) && (negb ok || c10_ferror w1 name)); [destruct (ck_popper (en_ck en)); [|discriminate]|]; inversion H; reflexivity. }
+  subst w'. split; [|exact Hfr].
+  apply sio_fflush_spec in Hc. destruct Hc as ((R1 & _ & _ & R4 & _) & _ & _).
+  pose proof (c10_apply_fault_rel (en_fault en (S (cw_n w))) f) as (F1 & _ & _ & F4 & _).
+  exists f'. split; [exact Hat'|]. split; [congruence|].
+  intros He. destruct (R1 He) as [He0 Hl]. destruct (F1 He0) as [Hef Hl0]. rewrite app_nil_r in Hl, Hl0.
+  rewrite Hl, Hl0. auto.
+Qed.
+Lemma c10_pop_finish_n_inv en name : forall n w w' data,
+  c10_sinv w name data -> c10_pop_finish_n n en name w = ROk tt w' -> c10_sinv w' name data /\ c10_frame name w w'.
+Proof.
+  induction n as [|k IH]; intros w w' data Hinv H; simpl in H.
+  - inversion H; subst. split; [exact Hinv|apply c10_frame_refl].
+  - destruct (c10_pop_finish en name w) as [[] w1|e w1|w1] eqn:Hp; simpl in H; try discriminate.
+    destruct (c10_pop_finish_inv _ _ _ _ _ Hinv Hp) as (H1 & F1). destruct (IH _ _ _ H1 H) as (H2 & F2).
+    split; [exact H2|eapply c10_frame_trans; eauto].
+Qed.
+
 (* a stream that has been flushed and found clean: the kernel has exactly `data` *)
 Definition c10_clean (w : c10_world) (name : nat) (data : list N) (open : bool) : Prop :=
   exists f, c10_at w name = Some f /\ sf_open f = open /\ sf_err f = false /\ sf_rbuf f = [] /\ sio_disk f = data.
@@ -155,7 +181,7 @@ Proof.
   assert (Hinv1 : c10_sinv w1 name [] /\ c10_frame name w w1).
   { unfold c10_fopen in Ho. simpl in Ho.
     destruct (c10_is_killb (en_fault en (S (cw_n w)))); [discriminate|].
-    set (f0 := c10_apply_fault (en_fault en (S (cw_n w))) (sio_new (en_initcap en) false)) in *.
+    set (f0 := c10_apply_fault (en_fault en (S (cw_n w))) (sio_new_glitch (en_initcap en) false (en_glitch en))) in *.
     assert (Hf0 : sf_open f0 = true /\ (sf_err f0 = false -> sio_logical f0 = [])).
     { subst f0. destruct (en_fault en (S (cw_n w))); simpl; auto. }
     destruct (en_fault en (S (cw_n w))) eqn:Efa; simpl in Ho; try discriminate;
@@ -163,13 +189,17 @@ Proof.
       (split; [exists f0; split; [apply c10_lookup_bind_same|exact Hf0]
               |split; [intros m Hm; unfold c10_at; simpl; apply c10_lookup_bind_other; auto|split; reflexivity]]). }
   destruct Hinv1 as [Hinv1 Hfr1].
-  set (body := c10_bind (c10_pl_write_chunks en name chunks w1) _) in H.
+  set (body := c10_bind (c10_with_pops en name (c10_pl_write_chunks en name chunks w1)) _) in H.
   destruct body as [[] w5|e w5|w5] eqn:Hbody; simpl in H; try discriminate.
   2:{ destruct (c10_is_open w5 name); [destruct (c10_fclose en name w5); discriminate|discriminate]. }
   subst body.
   destruct (c10_pl_write_chunks en name chunks w1) as [[] w2|e w2|w2] eqn:Hw; simpl in Hbody; try discriminate.
-  destruct (c10_pl_write_chunks_inv _ _ _ _ _ _ Hinv1 Hw) as (Hinv2 & Hfr2). simpl in Hinv2.
-  destruct (c10_pl_finish en name w2) as [[] w3|e w3|w3] eqn:Hfin; simpl in Hbody; try discriminate.
+  2:{ destruct (c10_pop_finish_n (en_md5_pops en) en name w2) as [[]| |]; discriminate. }
+  destruct (c10_pl_write_chunks_inv _ _ _ _ _ _ Hinv1 Hw) as (Hinv2a & Hfr2a). simpl in Hinv2a.
+  destruct (c10_pop_finish_n (en_md5_pops en) en name w2) as [[] w2'|e w2'|w2'] eqn:Hpop; simpl in Hbody; try discriminate.
+  destruct (c10_pop_finish_n_inv _ _ _ _ _ _ Hinv2a Hpop) as (Hinv2 & Hfr2b).
+  pose proof (c10_frame_trans _ _ _ _ Hfr2a Hfr2b) as Hfr2.
+  destruct (c10_pl_finish en name w2') as [[] w3|e w3|w3] eqn:Hfin; simpl in Hbody; try discriminate.
   destruct (c10_pl_finish_inv _ _ _ _ _ Hck Hinv2 Hfin) as (Hcl3 & Hfr3).
   destruct (c10_fclose en name w3) as [okc w4|e w4|w4] eqn:Hcl; simpl in Hbody; try discriminate.
   destruct (c10_fclose_clean _ _ _ _ _ _ Hcl3 Hcl) as (Hcl4 & Hfr4).
@@ -431,7 +461,7 @@ Qed.
 (* The pinned sinks (no result of fflush/fclose is looked at) violate the third sentence: a 3-byte output,
    the device full from the first write on: exit status 0 and an empty file. *)
 Definition c10_witness_env : c10_env :=
-  mk_env 4096 (fun n => if Nat.eqb n 2 then FaFull else FaNone) None 2 c10_unrepaired.
+  mk_env 4096 (fun n => if Nat.eqb n 2 then FaFull else FaNone) None 2 c10_unrepaired 0 None.
 Lemma exit_ok_implies_complete_refuted_lemma :
   exists en warn wx0 sc orig n c,
     en_ck en = c10_unrepaired /\ c10_writer_scen sc = true /\ c10_wf sc /\
@@ -449,7 +479,7 @@ Lemma stdout_exit_ok_implies_complete_refuted_lemma :
     c10_intended sc = [(c10_stdout, [37; 80; 10; 68; 10]%N)] /\
     c10_file_of (c10_run en false false sc []) c10_stdout = Some [].
 Proof.
-  exists (mk_env 4096 (fun n => if Nat.eqb n 1 then FaFull else FaNone) None 2 c10_unrepaired),
+  exists (mk_env 4096 (fun n => if Nat.eqb n 1 then FaFull else FaNone) None 2 c10_unrepaired 0 None),
          (ScStdout [OChunk [37; 80; 10]%N; OChunk [68; 10]%N] 1 0 false).
   repeat split; vm_compute; auto.
 Qed.
@@ -501,6 +531,19 @@ Proof.
   unfold c10_pl_finish. apply c10_dq_bind; [apply c10_dq_stream_op|]. intros ok w1 H1.
   destruct (ck_finish (en_ck en) && (negb ok || c10_ferror w1 name)); exact H1.
 Qed.
+Lemma c10_dq_pop_finish_n en name : forall n w, c10_diag_of (c10_pop_finish_n n en name w) = cw_diag w.
+Proof.
+  induction n as [|k IH]; intros w; simpl; [reflexivity|].
+  apply c10_dq_bind.
+  - unfold c10_pop_finish. apply c10_dq_bind; [apply c10_dq_stream_op|]. intros ok w1 H1.
+    destruct (ck_finish (en_ck en) && (negb ok || c10_ferror w1 name)); [destruct (ck_popper (en_ck en))|]; exact H1.
+  - intros _ w1 H1. rewrite IH. exact H1.
+Qed.
+Lemma c10_dq_with_pops en name r : c10_diag_of (c10_with_pops en name r) = c10_diag_of r.
+Proof.
+  destruct r as [[] w|e w|w]; simpl; [apply c10_dq_pop_finish_n| |reflexivity].
+  pose proof (c10_dq_pop_finish_n en name (en_md5_pops en) w) as H. destruct (c10_pop_finish_n _ en name w); exact H.
+Qed.
 Lemma c10_dq_fclose en name w : c10_diag_of (c10_fclose en name w) = cw_diag w.
 Proof. apply c10_dq_stream_op. Qed.
 Lemma c10_dq_dtor_close {A} en name (r : c10_res A) : c10_diag_of (c10_dtor_close en name r) = c10_diag_of r.
@@ -512,7 +555,7 @@ Lemma c10_dq_writer_file en name chunks w : c10_diag_of (c10_writer_file en name
 Proof.
   unfold c10_writer_file. apply c10_dq_bind; [apply c10_dq_fopen|]. intros ok w1 H1.
   destruct ok; simpl; [|exact H1]. rewrite c10_dq_dtor_close.
-  apply c10_dq_bind; [rewrite c10_dq_pl_write_chunks; exact H1|]. intros _ w2 H2.
+  apply c10_dq_bind; [rewrite c10_dq_with_pops, c10_dq_pl_write_chunks; exact H1|]. intros _ w2 H2.
   apply c10_dq_bind; [rewrite c10_dq_pl_finish; exact H2|]. intros _ w3 H3.
   apply c10_dq_bind; [rewrite c10_dq_fclose; exact H3|]. intros okc w4 H4.
   destruct (ck_wclose (en_ck en) && negb okc); exact H4.
@@ -719,7 +762,7 @@ Proof.
   assert (Hinv1 : c10_sinv w1 name [] /\ c10_frame name w w1).
   { unfold c10_fopen in Ho. simpl in Ho.
     destruct (c10_is_killb (en_fault en (S (cw_n w)))); [discriminate|].
-    set (f0 := c10_apply_fault (en_fault en (S (cw_n w))) (sio_new (en_initcap en) false)) in *.
+    set (f0 := c10_apply_fault (en_fault en (S (cw_n w))) (sio_new_glitch (en_initcap en) false (en_glitch en))) in *.
     assert (Hf0 : sf_open f0 = true /\ (sf_err f0 = false -> sio_logical f0 = [])).
     { subst f0. destruct (en_fault en (S (cw_n w))); simpl; auto. }
     destruct (en_fault en (S (cw_n w))) eqn:Efa; simpl in Ho; try discriminate;
@@ -727,13 +770,17 @@ Proof.
       (split; [exists f0; split; [apply c10_lookup_bind_same|exact Hf0]
               |split; [intros m Hm; unfold c10_at; simpl; apply c10_lookup_bind_other; auto|split; reflexivity]]). }
   destruct Hinv1 as [Hinv1 Hfr1].
-  set (body := c10_bind (c10_pl_write_chunks en name chunks w1) _) in H.
+  set (body := c10_bind (c10_with_pops en name (c10_pl_write_chunks en name chunks w1)) _) in H.
   destruct body as [[] w5|e w5|w5] eqn:Hbody; simpl in H; try discriminate.
   2:{ destruct (c10_is_open w5 name); [destruct (c10_fclose en name w5); discriminate|discriminate]. }
   subst body.
   destruct (c10_pl_write_chunks en name chunks w1) as [[] w2|e w2|w2] eqn:Hw; simpl in Hbody; try discriminate.
-  destruct (c10_pl_write_chunks_inv _ _ _ _ _ _ Hinv1 Hw) as (Hinv2 & Hfr2). simpl in Hinv2.
-  destruct (c10_pl_finish en name w2) as [[] w3|e w3|w3] eqn:Hfin; simpl in Hbody; try discriminate.
+  2:{ destruct (c10_pop_finish_n (en_md5_pops en) en name w2) as [[]| |]; discriminate. }
+  destruct (c10_pl_write_chunks_inv _ _ _ _ _ _ Hinv1 Hw) as (Hinv2a & Hfr2a). simpl in Hinv2a.
+  destruct (c10_pop_finish_n (en_md5_pops en) en name w2) as [[] w2'|e w2'|w2'] eqn:Hpop; simpl in Hbody; try discriminate.
+  destruct (c10_pop_finish_n_inv _ _ _ _ _ _ Hinv2a Hpop) as (Hinv2 & Hfr2b).
+  pose proof (c10_frame_trans _ _ _ _ Hfr2a Hfr2b) as Hfr2.
+  destruct (c10_pl_finish en name w2') as [[] w3|e w3|w3] eqn:Hfin; simpl in Hbody; try discriminate.
   destruct (c10_pl_finish_weak _ _ _ _ _ Hinv2 Hfin) as (Hcl3 & Hfr3).
   destruct (c10_fclose en name w3) as [okc w4|e w4|w4] eqn:Hcl; simpl in Hbody; try discriminate.
   destruct (c10_fclose_weak _ _ _ _ _ _ Hcl3 Hcl) as (Hcl4 & Hfr4).
@@ -1079,7 +1126,7 @@ Lemma c10_fopen_inv en name w w1 :
 Proof.
   intros Ho. unfold c10_fopen in Ho. simpl in Ho.
   destruct (c10_is_killb (en_fault en (S (cw_n w)))); [discriminate|].
-  set (f0 := c10_apply_fault (en_fault en (S (cw_n w))) (sio_new (en_initcap en) false)) in *.
+  set (f0 := c10_apply_fault (en_fault en (S (cw_n w))) (sio_new_glitch (en_initcap en) false (en_glitch en))) in *.
   assert (Hf0 : sf_open f0 = true /\ (sf_err f0 = false -> sio_logical f0 = [])).
   { subst f0. destruct (en_fault en (S (cw_n w))); simpl; auto. }
   destruct (en_fault en (S (cw_n w))) eqn:Efa; simpl in Ho; try discriminate;
@@ -1198,4 +1245,241 @@ Proof.
   assert (Hsay : forall n c, c10_clean w1 n c false -> c10_clean (if warn || false then c10_say w1 DgWarn else w1) n c false).
   { intros n c Hc. destruct (warn || false); [|exact Hc]. destruct Hc as (f & Hat & Hr). exists f. rewrite c10_at_say. split; [exact Hat|exact Hr]. }
   split; [apply c10_file_of_clean, Hsay, Hm|]. intros s x Hsx. apply c10_file_of_clean, Hsay, Hs, Hsx.
+Qed.
+
+(* ---- std::terminate: only a throwing finish() inside the Popper destructor sets it *)
+Definition c10_ab_of {A} (r : c10_res A) : bool :=
+  match r with ROk _ w | RExc _ w | RDead w => cw_aborted w end.
+
+Lemma c10_ab_bind {A C} (r : c10_res A) (k : A -> c10_world -> c10_res C) l :
+  c10_ab_of r = l -> (forall a w1, cw_aborted w1 = l -> c10_ab_of (k a w1) = l) -> c10_ab_of (c10_bind r k) = l.
+Proof. intros Hr Hk. destruct r; simpl in *; auto. Qed.
+
+Lemma c10_ab_stream_op {A} en name w (call : sfile -> A * sfile) ev dflt :
+  c10_ab_of (c10_stream_op en name w call ev dflt) = cw_aborted w.
+Proof.
+  unfold c10_stream_op. simpl. destruct (c10_is_killb _); [reflexivity|].
+  destruct (c10_lookup (cw_dir w) name); [|reflexivity].
+  destruct (call _) as [a f']. destruct (c10_is_killa _); reflexivity.
+Qed.
+Lemma c10_ab_fopen en name w : c10_ab_of (c10_fopen en name w) = cw_aborted w.
+Proof.
+  unfold c10_fopen. simpl. destruct (c10_is_killb _); [reflexivity|].
+  destruct (en_fault en (S (cw_n w))); simpl; try reflexivity.
+Qed.
+Lemma c10_ab_rename en a b w : c10_ab_of (c10_rename en a b w) = cw_aborted w.
+Proof.
+  unfold c10_rename. simpl. destruct (c10_is_killb _); [reflexivity|]. destruct (c10_path_fails _); [reflexivity|].
+  destruct (c10_lookup (cw_dir w) a); [|reflexivity]. destruct (c10_is_killa _); reflexivity.
+Qed.
+Lemma c10_ab_unlink en a w : c10_ab_of (c10_unlink en a w) = cw_aborted w.
+Proof.
+  unfold c10_unlink. simpl. destruct (c10_is_killb _); [reflexivity|]. destruct (c10_path_fails _); [reflexivity|].
+  destruct (c10_is_killa _); reflexivity.
+Qed.
+
+Lemma c10_ab_pl_write en name : forall fuel d w, c10_ab_of (c10_pl_write fuel en name d w) = cw_aborted w.
+Proof.
+  induction fuel as [|fu IH]; intros d w; destruct d as [|b tl]; simpl; try reflexivity.
+  apply c10_ab_bind; [apply c10_ab_stream_op|]. intros r w1 H1. destruct (Nat.eqb r 0); simpl; [exact H1|].
+  rewrite IH. exact H1.
+Qed.
+Lemma c10_ab_pl_write_chunks en name : forall chunks w, c10_ab_of (c10_pl_write_chunks en name chunks w) = cw_aborted w.
+Proof.
+  induction chunks as [|d tl IH]; intros w; simpl; [reflexivity|].
+  apply c10_ab_bind; [apply c10_ab_pl_write|]. intros _ w1 H1. rewrite IH. exact H1.
+Qed.
+Lemma c10_ab_pl_finish en name w : c10_ab_of (c10_pl_finish en name w) = cw_aborted w.
+Proof.
+  unfold c10_pl_finish. apply c10_ab_bind; [apply c10_ab_stream_op|]. intros ok w1 H1.
+  destruct (ck_finish (en_ck en) && (negb ok || c10_ferror w1 name)); exact H1.
+Qed.
+Definition c10_popper_safe (ck : c10_checks) : bool := ck_popper ck || negb (ck_finish ck).
+Lemma c10_ab_pop_finish_n en name : c10_popper_safe (en_ck en) = true ->
+  forall n w, c10_ab_of (c10_pop_finish_n n en name w) = cw_aborted w.
+Proof.
+  intros Hs. induction n as [|k IH]; intros w; simpl; [reflexivity|].
+  apply c10_ab_bind.
+  - unfold c10_pop_finish. apply c10_ab_bind; [apply c10_ab_stream_op|]. intros ok w1 H1.
+    unfold c10_popper_safe in Hs. destruct (ck_finish (en_ck en)); simpl in *; [|exact H1].
+    rewrite orb_false_r in Hs. rewrite Hs. destruct (negb ok || c10_ferror w1 name); exact H1.
+  - intros _ w1 H1. rewrite IH. exact H1.
+Qed.
+Lemma c10_ab_with_pops en name r : c10_popper_safe (en_ck en) = true -> c10_ab_of (c10_with_pops en name r) = c10_ab_of r.
+Proof.
+  intros Hs. destruct r as [[] w|e w|w]; simpl; [apply c10_ab_pop_finish_n; exact Hs| |reflexivity].
+  pose proof (c10_ab_pop_finish_n en name Hs (en_md5_pops en) w) as H. destruct (c10_pop_finish_n _ en name w); exact H.
+Qed.
+Lemma c10_ab_fclose en name w : c10_ab_of (c10_fclose en name w) = cw_aborted w.
+Proof. apply c10_ab_stream_op. Qed.
+Lemma c10_ab_dtor_close {A} en name (r : c10_res A) : c10_ab_of (c10_dtor_close en name r) = c10_ab_of r.
+Proof.
+  destruct r as [a w|e w|w]; simpl; [| |reflexivity]; destruct (c10_is_open w name); try reflexivity;
+    pose proof (c10_ab_fclose en name w) as H; destruct (c10_fclose en name w); exact H.
+Qed.
+Lemma c10_ab_writer_file en name chunks w : c10_popper_safe (en_ck en) = true -> c10_ab_of (c10_writer_file en name chunks w) = cw_aborted w.
+Proof.
+  intros Hs. unfold c10_writer_file. apply c10_ab_bind; [apply c10_ab_fopen|]. intros ok w1 H1.
+  destruct ok; simpl; [|exact H1]. rewrite c10_ab_dtor_close.
+  apply c10_ab_bind; [rewrite c10_ab_with_pops by exact Hs; rewrite c10_ab_pl_write_chunks; exact H1|]. intros _ w2 H2.
+  apply c10_ab_bind; [rewrite c10_ab_pl_finish; exact H2|]. intros _ w3 H3.
+  apply c10_ab_bind; [rewrite c10_ab_fclose; exact H3|]. intros okc w4 H4.
+  destruct (ck_wclose (en_ck en) && negb okc); exact H4.
+Qed.
+Lemma c10_ab_split en : c10_popper_safe (en_ck en) = true -> forall outs w, c10_ab_of (c10_split en outs w) = cw_aborted w.
+Proof.
+  intros Hs. induction outs as [|[name chunks] tl IH]; intros w; simpl; [reflexivity|].
+  apply c10_ab_bind; [apply c10_ab_writer_file; exact Hs|]. intros _ w1 H1. rewrite IH. exact H1.
+Qed.
+Lemma c10_ab_json_items en main : forall items w, c10_ab_of (c10_json_items en main items w) = cw_aborted w.
+Proof.
+  induction items as [|it tl IH]; intros w; simpl; [reflexivity|]. destruct it.
+  - apply c10_ab_bind; [apply c10_ab_pl_write|]. intros _ w1 H1. rewrite IH. exact H1.
+  - apply c10_ab_bind; [apply c10_ab_fopen|]. intros ok w1 H1. destruct ok; simpl; [rewrite IH|]; exact H1.
+  - apply c10_ab_bind; [apply c10_ab_pl_write|]. intros _ w1 H1. rewrite IH. exact H1.
+  - apply c10_ab_bind; [apply c10_ab_pl_finish|]. intros _ w1 H1.
+    apply c10_ab_bind; [rewrite c10_ab_fclose; exact H1|]. intros okc w2 H2.
+    destruct (ck_jsclose (en_ck en) && negb okc); simpl; [|rewrite IH]; exact H2.
+Qed.
+Lemma c10_ab_json_file en main items w : c10_ab_of (c10_json_file en main items w) = cw_aborted w.
+Proof.
+  unfold c10_json_file. apply c10_ab_bind; [apply c10_ab_fopen|]. intros ok w1 H1.
+  destruct ok; simpl; [|exact H1]. rewrite c10_ab_dtor_close.
+  apply c10_ab_bind; [rewrite c10_ab_json_items; exact H1|]. intros _ w2 H2.
+  destruct (ck_jclose (en_ck en)); [|exact H2].
+  apply c10_ab_bind; [rewrite c10_ab_pl_finish; exact H2|]. intros _ w3 H3.
+  apply c10_ab_bind; [rewrite c10_ab_fclose; exact H3|]. intros okc w4 H4. destruct (negb okc); exact H4.
+Qed.
+Lemma c10_ab_os_flush en w : c10_ab_of (c10_os_flush en w) = cw_aborted w.
+Proof.
+  unfold c10_os_flush. destruct (cw_cout_bad w); [reflexivity|].
+  apply c10_ab_bind; [apply c10_ab_stream_op|]. intros ok w1 H1. destruct ok; exact H1.
+Qed.
+Lemma c10_ab_os_tie_n en : forall n w, c10_ab_of (c10_os_tie_n n en w) = cw_aborted w.
+Proof.
+  induction n as [|k IH]; intros w; simpl; [reflexivity|].
+  apply c10_ab_bind; [apply c10_ab_os_flush|]. intros _ w1 H1. rewrite IH. exact H1.
+Qed.
+Lemma c10_ab_os_write en d w : c10_ab_of (c10_os_write en d w) = cw_aborted w.
+Proof.
+  unfold c10_os_write. destruct d; [reflexivity|]. destruct (cw_cout_bad w); [reflexivity|].
+  apply c10_ab_bind; [apply c10_ab_stream_op|]. intros r w1 H1. simpl. destruct (r <? _); exact H1.
+Qed.
+Lemma c10_ab_os_items en : forall items w, c10_ab_of (c10_os_items en items w) = cw_aborted w.
+Proof.
+  induction items as [|it tl IH]; intros w; simpl; [reflexivity|]. destruct it.
+  - apply c10_ab_bind; [apply c10_ab_os_write|]. intros _ w1 H1. rewrite IH. exact H1.
+  - apply c10_ab_bind; [apply c10_ab_os_flush|]. intros _ w1 H1. rewrite IH. exact H1.
+Qed.
+Lemma c10_ab_os_finish en w : c10_ab_of (c10_os_finish en w) = cw_aborted w.
+Proof.
+  unfold c10_os_finish. apply c10_ab_bind; [apply c10_ab_os_flush|]. intros _ w1 H1.
+  destruct (ck_ostream (en_ck en) && cw_cout_bad w1); exact H1.
+Qed.
+Lemma c10_ab_os_finish_n en : forall n w, c10_ab_of (c10_os_finish_n n en w) = cw_aborted w.
+Proof.
+  induction n as [|k IH]; intros w; simpl; [reflexivity|].
+  apply c10_ab_bind; [apply c10_ab_os_finish|]. intros _ w1 H1. rewrite IH. exact H1.
+Qed.
+Lemma c10_ab_exit_rounds en : forall n wbad w, c10_ab_of (c10_exit_rounds n en wbad w) = cw_aborted w.
+Proof.
+  induction n as [|k IH]; intros wbad w; simpl; [reflexivity|].
+  apply c10_ab_bind; [apply c10_ab_os_flush|]. intros _ w1 H1. destruct wbad; [rewrite IH; exact H1|].
+  apply c10_ab_bind; [unfold c10_fflush; rewrite c10_ab_stream_op; exact H1|]. intros ok w2 H2. rewrite IH. exact H2.
+Qed.
+
+
+Lemma c10_ab_replace en warn inp backup temp chunks w : c10_popper_safe (en_ck en) = true ->
+  c10_ab_of (c10_replace en warn inp backup temp chunks w) = cw_aborted w.
+Proof.
+  intros Hs. unfold c10_replace.
+  apply c10_ab_bind; [apply c10_ab_writer_file; exact Hs|]. intros _ w1 H1.
+  apply c10_ab_bind; [rewrite c10_ab_rename; exact H1|]. intros ok1 w2 H2. destruct ok1; simpl; [|exact H2].
+  apply c10_ab_bind; [rewrite c10_ab_rename; exact H2|]. intros ok2 w3 H3. destruct ok2; simpl; [|exact H3].
+  destruct warn; simpl; [exact H3|].
+  apply c10_ab_bind; [rewrite c10_ab_unlink; exact H3|]. intros ok3 w4 H4. destruct ok3; exact H4.
+Qed.
+
+Lemma c10_ab_job en warn sc w : c10_popper_safe (en_ck en) = true -> c10_ab_of (c10_job en warn sc w) = cw_aborted w.
+Proof.
+  intros Hs. destruct sc as [out chunks|outs|main items|items nfin ntie sw|inp backup temp chunks]; simpl.
+  - pose proof (c10_ab_writer_file en out chunks w Hs) as H. destruct (c10_writer_file en out chunks w) as [[]| |]; exact H.
+  - pose proof (c10_ab_split en Hs outs w) as H. destruct (c10_split en outs w) as [[]| |]; exact H.
+  - pose proof (c10_ab_json_file en main items w) as H. destruct (c10_json_file en main items w) as [[]| |]; exact H.
+  - assert (H : c10_ab_of (c10_bind (c10_os_items en items w) (fun _ w1 => c10_os_finish_n nfin en w1)) = cw_aborted w).
+    { apply c10_ab_bind; [apply c10_ab_os_items|]. intros _ w1 H1. rewrite c10_ab_os_finish_n. exact H1. }
+    destruct (c10_bind (c10_os_items en items w) (fun _ w1 => c10_os_finish_n nfin en w1)) as [[]| |]; simpl in *;
+      try destruct sw; exact H.
+  - pose proof (c10_ab_replace en warn inp backup temp chunks w Hs) as H.
+    destruct (c10_replace en warn inp backup temp chunks w) as [[]| |]; exact H.
+Qed.
+
+Lemma c10_ab_process_exit en sc code w : cw_aborted (rs_world (c10_process_exit en sc code w)) = cw_aborted w.
+Proof.
+  unfold c10_process_exit. destruct (c10_uses_stdout sc); [|reflexivity].
+  assert (H : c10_ab_of (c10_bind (c10_os_tie_n 2 en w) (fun _ w0 => c10_exit_rounds (en_exit_rounds en) en false w0)) = cw_aborted w).
+  { apply c10_ab_bind; [apply c10_ab_os_tie_n|]. intros _ w1 H1. rewrite c10_ab_exit_rounds. exact H1. }
+  destruct (c10_bind (c10_os_tie_n 2 en w) _) as [a w1|e w1|w1]; exact H.
+Qed.
+
+Lemma c10_ab_fail_exit en sc e w : cw_aborted (rs_world (c10_fail_exit en sc e w)) = cw_aborted w.
+Proof.
+  unfold c10_fail_exit. pose proof (c10_ab_os_tie_n en (c10_catch_ties sc) (c10_say w (c10_exn_diag e))) as H.
+  destruct (c10_os_tie_n (c10_catch_ties sc) en _) as [[] w4|e4 w4|w4]; simpl in H |- *; try rewrite c10_ab_process_exit; exact H.
+Qed.
+
+(* With the Popper destructor made safe (D2b), and also on the pinned tree where finish() never throws, no run ends in
+   std::terminate: for every scenario, fault oracle, buffer size, data.  (So in the theorems above "rs_exit = None"
+   means killed from outside, nothing else.) *)
+Lemma no_terminate_lemma : forall en warn wx0 sc orig,
+  c10_popper_safe (en_ck en) = true ->
+  cw_aborted (rs_world (c10_run en warn wx0 sc orig)) = false /\
+  c10_exit_status (c10_run en warn wx0 sc orig) = rs_exit (c10_run en warn wx0 sc orig).
+Proof.
+  intros en warn wx0 sc orig Hs.
+  assert (H : cw_aborted (rs_world (c10_run en warn wx0 sc orig)) = false).
+  { unfold c10_run.
+    assert (H0 : cw_aborted (c10_initial en sc orig) = false) by (destruct sc; reflexivity).
+    pose proof (c10_ab_job en warn sc (c10_initial en sc orig) Hs) as Hj. rewrite H0 in Hj.
+    destruct (c10_job en warn sc (c10_initial en sc orig)) as [extra w1|e w1|w1]; simpl in Hj |- *.
+    - set (w1' := if warn || extra then c10_say w1 DgWarn else w1).
+      assert (H1 : cw_aborted w1' = false) by (subst w1'; destruct (warn || extra); exact Hj).
+      pose proof (c10_ab_os_tie_n en (c10_closing_ties sc) w1') as Ht. rewrite H1 in Ht.
+      destruct (c10_os_tie_n (c10_closing_ties sc) en w1') as [[] w2|e2 w2|w2]; simpl in Ht |- *.
+      + assert (Hm : c10_ab_of (c10_main_stdout_check en sc w2) = false).
+        { unfold c10_main_stdout_check. destruct (ck_stdout (en_ck en) && c10_uses_stdout sc); [|exact Ht].
+          apply c10_ab_bind; [unfold c10_fflush; rewrite c10_ab_stream_op; exact Ht|]. intros ok w3 H3. destruct (negb ok || _ || _); exact H3. }
+        destruct (c10_main_stdout_check en sc w2) as [[] w3|e3 w3|w3]; simpl in Hm |- *.
+        * rewrite c10_ab_process_exit. exact Hm.
+        * rewrite c10_ab_fail_exit. exact Hm.
+        * exact Hm.
+      + rewrite c10_ab_fail_exit. exact Ht.
+      + exact Ht.
+    - rewrite c10_ab_fail_exit. exact Hj.
+    - exact Hj. }
+  split; [exact H|]. unfold c10_exit_status. rewrite H. reflexivity.
+Qed.
+
+(* /repo at c4309d60 (D2 repaired, Popper destructor not): --deterministic-id, a 3-byte output, the device full from the
+   first write on: the first finish() that notices is the one inside the destructor: std::terminate, status 134 - not 2. *)
+Lemma popper_terminate_refuted_lemma :
+  exists en sc, en_ck en = c10_repaired_d2 /\ c10_writer_scen sc = true /\
+    c10_exit_status (c10_run en false false sc []) = Some 134 /\
+    c10_has_err (cw_diag (rs_world (c10_run en false false sc []))) = false.
+Proof.
+  exists (mk_env 4096 (fun n => if Nat.eqb n 2 then FaFull else FaNone) None 2 c10_repaired_d2 1 None), (ScWrite 1 [[37; 80; 68]%N]).
+  repeat split; vm_compute; reflexivity.
+Qed.
+
+(* A transient fault (one write(2) failing with EINTR/EIO/ENOSPC, the following ones succeeding) on the pinned sinks:
+   a block of the output is missing, the later blocks are there, exit status 0.  (For the repaired sinks the
+   exit_ok_implies_complete theorems above already cover it: en_glitch is part of en.) *)
+Lemma transient_fault_refuted_lemma :
+  exists en chunks, en_ck en = c10_unrepaired /\ en_glitch en = Some 0 /\
+    rs_exit (c10_run en false false (ScWrite 1 chunks) []) = Some 0 /\
+    c10_file_of (c10_run en false false (ScWrite 1 chunks) []) 1 = Some (repeat 9%N 70) /\
+    concat chunks = repeat 7%N 100 ++ repeat 9%N 100.
+Proof.
+  exists (mk_env 130 c10_no_fault None 2 c10_unrepaired 0 (Some 0)), [repeat 7%N 100; repeat 9%N 100].
+  repeat split; vm_compute; reflexivity.
 Qed.
